@@ -75,7 +75,8 @@ PROPS = {
               "accounting clauses: an entry is absorbed by the stride exactly when the documented rule accepts it, otherwise one entry is spilled (4 bytes while values fit u32, 8 after); dense outward indices (C12) are always absorbed.",
               dropped=REGION_DROPPED + INDEX_DROPPED),
     "C20": _p("proof", ["regions"],
-              "every forwarding Push impl is proved against the same contract as the canonical form with an equal abstract value (same index, same stored bytes, same reads)."),
+              "every forwarding Push impl is proved against the same contract as the canonical form with an equal abstract value (same index, same stored bytes, same reads).",
+              scans=["push_forms_catalogued"]),
 }
 
 BOUNDED_TRUSTED = [
